@@ -78,7 +78,8 @@ def continuum_cases(draw, kinds=("elastic", "thermal", "advection")):
     vec = lambda lo, hi, den: [draw(st.integers(lo, hi)) / den for _ in range(ncomp)]  # noqa
     return dict(kind=kind, beta=[draw(st.integers(-4, 4)) / 2.0, draw(st.integers(-4, 4)) / 2.0], recipe=r, law=law, k=draw(st.integers(1, 12)) / 4.0, bcs=draw(bc_lists(ncomp)),
                 order=draw(st.integers(0, 999)), body=vec(-4, 4, 4.0), trac=vec(-4, 4, 2.0), point=vec(-4, 4, 2.0),
-                solver=draw(st.sampled_from(SOLVERS)))
+                solver=draw(st.sampled_from(SOLVERS)), cancel=draw(st.sampled_from([None, None, None, None, 0.25, 0.5])),
+                lmag=draw(st.sampled_from([1.0, 1.0, 1.0, 2.0**-30, 2.0**20])))
 
 
 def _windows(mesh):
@@ -137,7 +138,14 @@ def _apply_bcs(simu, mesh, unk, case, expected, unique=False):
     # well-posedness clamp: a fifth of the boundary, all components, zero
     k = max(ncomp + 1, nb // 5)
     conds.append(dict(nodes=ordered[:k], comps=list(range(ncomp)), form="const", coefs=[0, 0, 0, 0], repeat=1))
-    for bc in case["bcs"]:
+    if case.get("cancel"):
+        # prescribed values that are not zero but cancel exactly: +a and -a on two windows of the same size (a symmetric
+        # stretch, walls at -T / +T), nothing else than the zero clamp
+        m = max(1, (nb - k) // 3)
+        a = float(case["cancel"])
+        conds.append(dict(nodes=ordered[k:k + m], comps=[0], form="const", coefs=[a, 0, 0, 0], repeat=1))
+        conds.append(dict(nodes=ordered[k + m:k + 2 * m], comps=[0], form="const", coefs=[-a, 0, 0, 0], repeat=1))
+    for bc in ([] if case.get("cancel") else case["bcs"]):
         i0 = int(bc["lo"] * nb)
         m = max(1, int(bc["width"] * nb))
         nodes = ordered[[(i0 + j) % nb for j in range(m)]]
@@ -175,7 +183,24 @@ def _apply_bcs(simu, mesh, unk, case, expected, unique=False):
     return multi, ordered
 
 
+def _scaled(case):
+    """the same problem with every load and prescribed value multiplied by case['lmag'] (linear problems: the solution follows)"""
+    m = float(case.get("lmag", 1.0))
+    if m == 1.0:
+        return case, 1.0
+    case = dict(case)
+    for k in ("body", "trac", "point"):
+        case[k] = [m * float(v) for v in case[k]]
+    case["bcs"] = [dict(bc, coefs=[m * float(c) for c in bc["coefs"]]) for bc in case["bcs"]]
+    if case.get("cancel"):
+        case["cancel"] = m * float(case["cancel"])
+    return case, m
+
+
 def check_continuum(case, rec):
+    case, lmag = _scaled(case)
+    if lmag != 1.0:
+        rec.label(f"lmag:{lmag:g}")
     simu, mesh, unk, dim = _build_continuum(case)
     ncomp = len(unk)
     if mesh.Nn * ncomp > 450:
@@ -207,7 +232,7 @@ def check_continuum(case, rec):
     # (i) constrained dofs hold the sum of the entered values
     dofs = np.array(sorted(expected), int)
     vals = np.array([expected[d] for d in dofs])
-    scale_u = np.abs(u).max() + np.abs(vals).max() + 1e-6
+    scale_u = np.abs(u).max() + np.abs(vals).max() + 1e-6 * lmag
     rec.close(u[dofs] - vals, scale_u, 1e-12, "dirichlet_sum", f"{case['kind']} {types}: constrained dofs do not hold the sum "
               "of the entered values", **sig)
 
@@ -219,18 +244,20 @@ def check_continuum(case, rec):
     r = (K @ u - F)[free]
     b_red = F[free] - K[np.ix_(free, dofs)] @ vals
     if case["solver"] == "scipy":
-        rec.close(r, np.abs(K).max() * np.abs(u).max() + np.abs(F).max() + 1e-9, 1e-9, "free_residual",
+        rec.close(r, np.abs(K).max() * np.abs(u).max() + np.abs(F).max() + 1e-9 * lmag, 1e-9, "free_residual",
                   f"{case['kind']} {types}: K u != F on free dofs (direct solver)", **sig)
     else:
         nr, nb = float(np.linalg.norm(r)), float(np.linalg.norm(b_red))
         rec.note_max("iter_rel_residual:" + case["solver"], nr / (nb + 1e-300))
-        rec.require(nr <= 5e-5 * nb + 1e-12, "free_residual_iterative", f"{case['solver']} {types}: relative residual {nr / (nb + 1e-300):.2e} "
+        rec.require(nr <= 5e-5 * nb + 1e-12 * lmag, "free_residual_iterative", f"{case['solver']} {types}: relative residual {nr / (nb + 1e-300):.2e} "
                     "exceeds the back-end's stopping rule (1e-5)", **sig)
     if orphan_dofs.size:
         rec.close(u[orphan_dofs], scale_u, 1e-12, "orphan_dofs_zero", "orphan dofs carry a non-zero value", **sig)
     loaded_any = any(abs(v) > 0 for k in ("body", "trac", "point") for v in case[k])
-    rec.nontrivial(multi and loaded_any)
+    rec.nontrivial((multi or bool(case.get("cancel"))) and loaded_any)
     rec.label("multi-constrained" if multi else "single-constrained")
+    if case.get("cancel"):
+        rec.label("cancelling_values", f"sum_of_prescribed_values:{float(np.sum(vals))!r}")
 
 
 # ------------------------------------------------------------------------------------------
